@@ -157,7 +157,10 @@ func New(c *cat.Catalog, o cat.Opts) *Runner {
 		opts = append(opts, dig.RecoverFromPanics())
 	}
 	if o.Dry {
-		opts = append(opts, dig.DryRun(true))
+		opts = append(opts, dig.DryRun(false), dig.DryRun(true))
+	} else {
+		// options apply in order: the last DryRun wins
+		opts = append(opts, dig.DryRun(true), dig.DryRun(false))
 	}
 	r.c = dig.New(opts...)
 	return r
